@@ -343,6 +343,217 @@ class PerThread:
         self._cur().clear()
 
 
+class LockLog:
+    """proxy of a module lock: logs the outermost acquisitions and releases"""
+
+    def __init__(self, inner, tag, log, tname):
+        self.inner, self.tag, self.log, self.tname = inner, tag, log, tname
+
+    def acquire(self, *args, **kwds):
+        r = self.inner.acquire(*args, **kwds)
+        if r and self.inner.depth == 1:
+            self.log.append((self.tag + '+', self.tname()))
+        return r
+
+    def release(self):
+        if self.inner.depth == 1:
+            self.log.append((self.tag + '-', self.tname()))
+        self.inner.release()
+
+    __enter__ = acquire
+
+    def __exit__(self, *exc):
+        self.release()
+        return False
+
+
+def overlap_ops(case, log):
+    """place the operations of the threads in the order the model takes them: -> (model operations, [(thread, index)] of the
+    accesses in that order, None) or (None, None, why the run has no exact counterpart in the model).
+    Driver-side assignments are one section under updateLock each.  An access holds accessLock; a generated read_/write_<struct>
+    of the per-member layout becomes an overlapped operation: the assignments other threads completed before each of its own
+    steps (its updateLock sections, its cache reads) go to that position.  Other accesses must have nobody inside."""
+    members, hasR, hasW = case['members'], case['hasR'], case['hasW']
+    progs = case['progs']
+    tix = {f't{k}': k for k in range(len(progs))}
+    cur = {}                 # thread -> (k, i) of its current operation
+    pending = []             # assignments completed and not yet placed: wire form
+    ops, order = [], []      # order: parallel to ops, (thread, index) of an access or None for an assignment
+    inU = {}                 # thread -> inside an outermost updateLock section
+    access = None            # the access in progress: dict
+    started = set()
+
+    def wire(op):
+        return op[:-1]
+
+    def is_assign(op):
+        return op[0] in ('assignStruct', 'assignMember')
+
+    def flush_seq():
+        for a in pending:
+            ops.append(['seq', a])
+            order.append(None)
+        pending.clear()
+
+    def others_inside(t):
+        return any(v for th, v in inU.items() if th != t)
+
+    for ev in log:
+        kind, t = ev[0], ev[1]
+        if t == 'main':
+            continue                      # the sequential tail
+        if kind == 'op':
+            cur[t] = (ev[2], ev[3])
+            continue
+        if kind == 'end':
+            k = ev[2]
+            # operations of this thread that took no lock at all change nothing: place them here
+            for i in range(len(progs[k])):
+                if (k, i) not in started:
+                    started.add((k, i))
+                    if access is not None:
+                        return None, None, 'an operation without locks while an access is in progress'
+                    flush_seq()
+                    ops.append(['seq', wire(progs[k][i])])
+                    order.append((k, i))
+            continue
+        k, i = cur[t]
+        op = progs[k][i]
+        if (k, i) not in started and kind in ('A+', 'U+'):
+            # earlier operations of this thread that took no lock
+            for i0 in range(i):
+                if (k, i0) not in started:
+                    started.add((k, i0))
+                    if access is not None:
+                        return None, None, 'an operation without locks while an access is in progress'
+                    flush_seq()
+                    ops.append(['seq', wire(progs[k][i0])])
+                    order.append((k, i0))
+            started.add((k, i))
+        if is_assign(op):
+            if kind == 'U+':
+                inU[t] = True
+            elif kind == 'U-':
+                inU[t] = False
+                pending.append(wire(op))
+                if access is None:
+                    flush_seq()
+            continue
+        # an access (holds accessLock)
+        if kind == 'A+':
+            flush_seq()
+            structlevel = op[0] in ('readStruct', 'writeStruct')
+            access = {'t': t, 'ki': (k, i), 'op': op, 'overlapped': structlevel and not case['combined'], 'structlevel': structlevel,
+                      'before': [], 'seen': [], 'atEnd': [], 'afterRead': [], 'beforeErr': [], 'todo': list(members), 'phase': 'loop',
+                      'sections': 0, 'inside': False}
+            if access['overlapped'] and op[0] == 'writeStruct' and set(dict_in(op[1])) != set(members):
+                access['phase'] = 'refused'
+            continue
+        if kind in ('get', 'getS') and (access is None or access['t'] != t):
+            continue                      # a read of the cache outside any access changes nothing
+        if access is None or access['t'] != t:
+            return None, None, f'unexpected event {ev[:2]}'
+        a = access
+        if kind == 'A-':
+            if a['overlapped']:
+                ov = {'before': a['before'], 'seen': a['seen'], 'atEnd': a['atEnd'], 'afterRead': a['afterRead'], 'beforeErr': a['beforeErr']}
+                ops.append([op[0] + 'O'] + wire(op)[1:] + [ov])
+            else:
+                if a['inside']:
+                    return None, None, 'an assignment of another thread inside an access the model treats as one step'
+                ops.append(['seq', wire(op)])
+            order.append(a['ki'])
+            access = None
+            flush_seq()
+            continue
+        if not a['overlapped']:
+            if kind == 'U+':
+                if pending and a['sections'] == 0 and a['structlevel']:
+                    # combined layout, access to the whole struct: one update, what the others did comes before it
+                    flush_seq()
+                elif pending:
+                    a['inside'] = True
+                a['sections'] += 1
+                inU[t] = True
+            elif kind == 'U-':
+                inU[t] = False
+            elif kind in ('get', 'getS') and (pending or others_inside(t)) and not inU.get(t):
+                a['inside'] = True
+            continue
+        # a generated struct method of the per-member layout: follow its steps
+        if kind == 'U-':
+            inU[t] = False
+            continue
+        if kind in ('get', 'getS') and inU.get(t):
+            continue                      # reads inside its own section (callbacks)
+        if kind in ('get', 'getS') and others_inside(t):
+            return None, None, 'a cache read while another thread is in the middle of an update'
+        if kind == 'U+':
+            inU[t] = True
+        isread = op[0] == 'readStruct'
+        if a['phase'] == 'loop':
+            # the next member that has a step of this kind
+            while a['todo']:
+                m = a['todo'][0]
+                has_section = (m in hasR) if isread else True
+                if isread and not has_section:
+                    if kind == 'get' and ev[2] == m:
+                        a['todo'].pop(0)
+                        a['before'].append([m, list(pending)])
+                        a['seen'].append([m, ev[3]])
+                        pending.clear()
+                        break
+                    return None, None, f'expected the cache read of {m}, got {ev}'
+                outcome = (op[2] if isread else op[3])[members.index(m)]
+                if not isread and m in hasW and is_fail(outcome):
+                    a['todo'] = []       # the body of write_<m> raised: no update, the loop ends
+                    a['before'].append([m, []])
+                    a['phase'] = 'failed'
+                    break
+                if kind != 'U+':
+                    if kind == 'getS':
+                        break            # not a step of the loop (e.g. a callback reading the struct)
+                    return None, None, f'expected the update of {m}, got {ev}'
+                a['todo'].pop(0)
+                a['before'].append([m, list(pending)])
+                pending.clear()
+                if is_fail(outcome) and (m in hasR if isread else m in hasW):
+                    a['todo'] = []
+                    a['phase'] = 'failed'
+                break
+            else:
+                # all members treated: this is the update of the struct with the complete result
+                if kind == 'U+':
+                    a['atEnd'] += list(pending)
+                    pending.clear()
+                    a['phase'] = 'done'
+                continue
+            if a['phase'] == 'loop' or kind != 'getS':
+                continue
+        if a['phase'] == 'failed':
+            if kind == 'getS':
+                a['atEnd'] += list(pending)
+                pending.clear()
+                a['phase'] = 'merge'
+            continue
+        if a['phase'] == 'merge':
+            if kind == 'U+':
+                a['afterRead'] += list(pending)
+                pending.clear()
+                a['phase'] = 'err' if isread else 'done'
+            continue
+        if a['phase'] == 'err':
+            if kind == 'U+':
+                a['beforeErr'] += list(pending)
+                pending.clear()
+                a['phase'] = 'done'
+            continue
+    if access is not None:
+        return None, None, 'an access did not finish'
+    flush_seq()
+    return ops, order, None
+
+
 def impl_struct_conc(case, policy=None):
     """case['pre'] sequentially, then the threads case['progs'] under the scheduler (schedule: `policy`, default: replay of
     case['choices']), then case['ops'] sequentially.  -> (scheduler, trace, info); trace = the linked values at every
@@ -377,10 +588,37 @@ def impl_struct_conc(case, policy=None):
             ok, exc = struct_op(node, conn, mod, case, cur, op)
             trace.append(struct_snapshot(mod, conn, case, ok, exc))
         outcomes = [[] for _ in case['progs']]
+        # the order of events the model needs to place the operations of the threads: who holds accessLock / updateLock
+        # (outermost acquisitions), and what the reads of the cache outside updateLock see
+        log = []
+
+        def tname():
+            me = s.me()
+            return me.name if me is not None else 'main'
+        mod.updateLock = LockLog(mod.updateLock, 'U', log, tname)
+        mod.accessLock = LockLog(mod.accessLock, 'A', log, tname)
+        prefix = case['prefix']
+        for m in case['members']:
+            if not case['combined'] and m not in case['hasR']:
+                def logged_read(self, m=m, orig=getattr(type(mod), 'read_' + prefix + m)):
+                    v = orig(self)
+                    log.append(('get', tname(), m, num(v)))
+                    return v
+                setattr(type(mod), 'read_' + prefix + m, logged_read)
+        from frappy.params import Parameter
+        orig_get = Parameter.__get__
+
+        def logged_get(self, instance, owner):
+            if instance is mod and self.name == 'ctrl':
+                log.append(('getS', tname()))
+            return orig_get(self, instance, owner)
+        stack.enter_context(s.patched(Parameter, __get__=logged_get))
 
         def body(k):
-            for op in case['progs'][k]:
+            for i, op in enumerate(case['progs'][k]):
+                log.append(('op', tname(), k, i))
                 outcomes[k].append(list(struct_op(node, conn, mod, case, cur, op)))
+            log.append(('end', tname(), k))
 
         for k in range(len(case['progs'])):
             s.spawn(f't{k}', body, (k,))
@@ -390,8 +628,8 @@ def impl_struct_conc(case, policy=None):
         for op in case['ops']:
             ok, exc = struct_op(node, conn, mod, case, cur, op)
             trace.append(struct_snapshot(mod, conn, case, ok, exc))
-    info = {'sched': {k: out[k] for k in ('deadlock', 'aborted', 'errors', 'alive')}, 'outcomes': outcomes,
-            'choices': [c[1] for c in s.choices],
+    info = {'sched': {k: out[k] for k in ('deadlock', 'aborted', 'errors', 'alive')}, 'outcomes': outcomes, 'log': log,
+            'choices': [c[1] for c in s.choices], 'preemptions': sum(1 for c in s.choices if c[1] != c[2]),
             'complete': all(len(o) == len(p) for o, p in zip(outcomes, case['progs']))}
     return s, trace, info
 
@@ -1553,8 +1791,47 @@ def first_diff(a, b):
 
 
 def conc_model_req(case, trace, info):
-    """overlapping operations are judged; there is no model request yet (a no-op verb keeps the batch aligned)"""
-    return {'p': 'C18', 'k': 'judge_struct', 'members': [], 'trace': []}
+    """the model request for a run with overlapping operations; info['exact'] tells whether the run has an exact counterpart"""
+    noop = {'p': 'C18', 'k': 'judge_struct', 'members': [], 'trace': []}
+    sched = info['sched']
+    if sched['deadlock'] or sched['aborted'] or sched['errors'] or sched['alive'] or not info['complete']:
+        info['exact'], info['why'] = False, 'threads did not finish'
+        return noop
+    ops, order, why = overlap_ops(case, info['log'])
+    info['exact'], info['why'], info['order'] = ops is not None, why, order
+    if ops is None:
+        return noop
+    info['nconc'] = len(ops)
+    info['noverlap'] = sum(1 for op in ops if op[0] != 'seq' and (any(b for _, b in op[-1]['before']) or op[-1]['atEnd']
+                                                                 or op[-1]['afterRead'] or op[-1]['beforeErr']))
+    allops = [['seq', op[:-1]] for op in case['pre']] + ops + [['seq', op[:-1]] for op in case['ops']]
+    return {'p': 'C18', 'k': 'struct_overlap', 'members': case['members'], 'hasRS': case['hasRS'], 'hasWS': case['hasWS'],
+            'hasR': case['hasR'], 'hasW': case['hasW'], 'omit': bool(case.get('omit')), 'sP0': trace[0]['sP'],
+            'mP0': [m for m, p in zip(case['members'], trace[0]['mP']) if p], 'ops': allops}
+
+
+def conc_compare(case, trace, info, answer):
+    """-> None or a disagreement: the model states at the quiescent points of the run against the implementation"""
+    keys = ('struct', 'mem', 'sP', 'mP', 'evs', 'ok', 'exc')
+    states = [answer['init']] + answer['states']
+    npre, nconc = len(case['pre']), info['nconc']
+    mo = states[:npre + 1]
+    phase = states[npre + 1:npre + 1 + nconc]
+    joined = dict(phase[-1]) if phase else dict(states[npre])
+    joined['evs'] = [e for st in phase for e in st['evs']]
+    mo.append(joined)
+    mo += states[npre + 1 + nconc:]
+    io = [{k: t[k] for k in keys} for t in trace]
+    for i, (x, y) in enumerate(zip(mo, io)):
+        ks = keys if i != npre + 1 else ('struct', 'mem', 'sP', 'mP', 'evs')
+        if any(x[k] != y[k] for k in ks):
+            return {'case': case, 'at': i, 'model': {k: x[k] for k in ks}, 'impl': {k: y[k] for k in ks}}
+    # outcome of every access of the threads, in the order the model took them
+    for owner, st in zip(info['order'], phase):
+        if owner is not None and [st['ok'], st['exc']] != info['outcomes'][owner[0]][owner[1]]:
+            return {'case': case, 'at': f'thread {owner[0]} operation {owner[1]}', 'model': [st['ok'], st['exc']],
+                    'impl': info['outcomes'][owner[0]][owner[1]]}
+    return None
 
 
 def signature(case, bad, trace):
@@ -1708,18 +1985,33 @@ def _run_conc(ctx, res, corpus, big):
         while n < per_prog:
             runs.append(make_run(RandomPolicy(rng, rng.choice([0.2, 0.5, 0.8])))[1])
             n += 1
-    answers = ctx.driver.batch([judge_struct_req(case, trace) for case, trace, _ in runs])
+    reqs = []
+    for case, trace, info in runs:
+        reqs.append(conc_model_req(case, trace, info))
+        reqs.append(judge_struct_req(case, trace))
+    answers = ctx.driver.batch(reqs)
     reported = {}
-    for (case, trace, info), judge in zip(runs, answers):
-        if 'driver_error' in judge:
-            raise RuntimeError(f'driver error: {judge["driver_error"]} case={json.dumps(case)[:500]}')
+    for j, (case, trace, info) in enumerate(runs):
+        model, judge = answers[2 * j], answers[2 * j + 1]
+        if 'driver_error' in judge or 'driver_error' in model:
+            raise RuntimeError(f'driver error: {model.get("driver_error")} {judge.get("driver_error")} case={json.dumps(case)[:500]}')
+        if info['exact']:
+            res.count('structconc.compared-with-the-model')
+            if info['noverlap']:
+                res.count('structconc.compared-with-assignments-inside-a-struct-access')
+            if ctx.model_ok:
+                d = conc_compare(case, trace, info, model)
+                if d is not None and len(res.disagreements) < 20:
+                    res.disagreements.append(d)
+        elif info['why'] != 'threads did not finish':
+            res.count('structconc.judged-only: ' + info['why'][:70])
         res.evaluations += 1
         res.traces += 1
         res.count('structconc.runs')
         res.count('structconc.catalogue-of-basic-overlaps' if case.get('basic') else 'structconc.random-programs')
         res.count(f'structconc.threads-{len(case["progs"])}')
         res.count('structconc.layout-' + ('combined' if case['combined'] else 'permember'))
-        res.count('structconc.preemptions-%d' % min(3, sum(1 for c in info['choices'] if c)))
+        res.count('structconc.preemptions-%d' % min(3, info['preemptions']))
         if case.get('fine'):
             res.count('structconc.guard-load-store-yield-points')
         if case.get('omit'):
